@@ -13,7 +13,7 @@ import (
 
 type CutCase struct {
 	Stream string
-	Level  int
+	Level  int // -2: long stream family (DictCap 4096, 16 KiB caller buffer)
 	Cut    int
 }
 
@@ -22,7 +22,11 @@ func init() {
 	scenario("C05", "cut", func(r *core.Run, c core.Case) {
 		var p CutCase
 		params(c, &p)
-		for _, s := range readerStreams(p.Level) {
+		ss := longStreams()
+		if p.Level >= 0 {
+			ss = readerStreams(p.Level)
+		}
+		for _, s := range ss {
 			if s.Name == p.Stream {
 				c05Cut(r, s, p.Level, p.Cut, newSiteMap(s))
 			}
@@ -89,6 +93,9 @@ func (m *siteMap) at(k int) string { return m.names[k] }
 func c05Cut(r *core.Run, s Stream, level, cut int, sm *siteMap) {
 	cs := core.MkCase("C05", "cut", CutCase{Stream: s.Name, Level: level, Cut: cut})
 	out, err, proto, pan := libDecode(s.Fmt, s.Data[:cut], 0)
+	if level == -2 {
+		out, err, proto, pan = libDecodeBuf(s.Fmt, s.Data[:cut], 4096, 16384)
+	}
 	site := fmt.Sprintf("%s cut@%s", s.Fmt, sm.at(cut))
 	desc := fmt.Sprintf("stream %s (%d bytes, written by %s) cut to %d bytes", s.Name, len(s.Data), s.Writer, cut)
 	cls := errClass(err)
@@ -144,15 +151,23 @@ func runC05(r *core.Run) {
 		s   Stream
 		cut int
 		sm  *siteMap
+		lvl int
 	}
 	var jobs []job
+	for _, s := range longStreams() {
+		sm := newSiteMap(s)
+		for k := 0; k < len(s.Data); k++ {
+			jobs = append(jobs, job{s, k, sm, -2})
+		}
+		r.Trace(1)
+	}
 	for _, s := range streams {
 		sm := newSiteMap(s)
 		for k := 0; k < len(s.Data); k++ {
 			if s.ValidCuts[k] {
 				continue
 			}
-			jobs = append(jobs, job{s, k, sm})
+			jobs = append(jobs, job{s, k, sm, level})
 		}
 		r.Trace(1)
 	}
@@ -162,7 +177,7 @@ func runC05(r *core.Run) {
 	r.Sample(map[string]interface{}{"stream": streams[len(streams)-1].Name, "cut": 14})
 	r.Parallel(len(jobs), "cuts", func(i int) {
 		j := jobs[i]
-		lvl := level
+		lvl := j.lvl
 		if len(j.s.Name) > 7 && j.s.Name[:7] == "corpus:" {
 			lvl = -1
 		}
